@@ -1443,8 +1443,9 @@ def setitem(arr, idx, value):
         sub = getitem_nd(arr, idx) if len(idx) > 1 else None
         if len(idx) == 1:
             return setitem(arr, idx[0], value)
-        if isinstance(sub, SymArr) and sub.buf is arr.buf:
-            return write_view(sub, arr, value)
+        if isinstance(sub, SymArr) and sub.buf is arr.buf and getattr(sub, "inv", None) is not None:
+            assign_all(sub, value_fn(value, sub.shape_, arr.kind))
+            return
         raise Unsupported("nd assignment")
     if arr.ndim != 1:
         sub = getitem(arr, idx)
